@@ -160,6 +160,40 @@ pub fn check_c03(b: &[u8], l: &mut Local, coll: &Collector) {
         format!("zone={} observed={}", zone.name(), out.brief(|x| x.to_string()))
     });
     c03_compare(b, &zone, &out, l, coll, "c03");
+    // the other entry points that parse a locale agree with from_bytes
+    let same = |a: &Out<Locale>, c: &Out<Locale>| a.kind() == c.kind() && (a.ok().is_none() || (a.ok() == c.ok() && format!("{:?}", a.ok()) == format!("{:?}", c.ok())));
+    let o2 = guard(|| unic_locale_impl::parser::parse_locale(b));
+    if !same(&out, &o2) {
+        viol(coll, l, "c03.entry_points", "parser::parse_locale differs from Locale::from_bytes".into(), b, out.brief(|x| x.to_string()), o2.brief(|x| x.to_string()));
+    }
+    if let Ok(s) = std::str::from_utf8(b) {
+        let o3 = guard(|| Locale::from_str(s));
+        if !same(&out, &o3) {
+            viol(coll, l, "c03.entry_points", "Locale::from_str differs from Locale::from_bytes".into(), b, out.brief(|x| x.to_string()), o3.brief(|x| x.to_string()));
+        }
+        let o4: Out<Locale> = guard(|| s.parse::<Locale>());
+        if !same(&out, &o4) {
+            viol(coll, l, "c03.entry_points", "str::parse::<Locale> differs from Locale::from_bytes".into(), b, out.brief(|x| x.to_string()), o4.brief(|x| x.to_string()));
+        }
+    }
+    // the extension part alone: ExtensionsMap::from_bytes on the text after the language id
+    if let (Zone::MustAccept(v), Out::Ok(loc)) = (&zone, &out) {
+        let tokens = rm::split_tokens(b);
+        if let Ok((_, n)) = rm::langid_prefix(&tokens, 0) {
+            let mut off = 0usize;
+            for t in tokens.iter().take(n) {
+                off += t.len() + 1;
+            }
+            if off <= b.len() {
+                let tail = &b[off.min(b.len())..];
+                match guard(|| ExtensionsMap::from_bytes(tail)) {
+                    Out::Ok(em) if em == loc.extensions && em.to_string() == v.canon_ext() => {}
+                    o => viol(coll, l, "c03.entry_points", "ExtensionsMap::from_bytes on the extension part differs from the locale's extensions".into(), b,
+                              v.canon_ext(), o.brief(|x| x.to_string())),
+                }
+            }
+        }
+    }
 }
 
 fn c03_compare(b: &[u8], zone: &Zone, out: &Out<Locale>, l: &Local, coll: &Collector, _p: &str) {
@@ -609,6 +643,12 @@ pub fn sweep(ctx: &Ctx, plan: &SweepPlan, rep: &mut Report, checker: &Checker) -
     };
     let nskel = skels.len() as u64;
     spaces.push(Box::new(SkeletonSpace { label: "E2.k0".into(), skels: skels.clone() }));
+    if !plan.langid_only {
+        // lists of 4..=8 elements: the skeletons themselves and every single edit of them
+        let long = long_skeletons();
+        spaces.push(Box::new(SkeletonSpace { label: "E2.long.k0".into(), skels: long.clone() }));
+        spaces.push(Box::new(EditSpace::new("E2.long.k1", long, full.clone(), BOUNDARY_BYTES.to_vec())));
+    }
     // one edit: every token edit + boundary-class byte substitutions on the (non-rep3) skeleton
     // set of the tier; in the thorough tier additionally all 256 byte values on the reduced set
     let k1_skels = if plan.langid_only {
@@ -635,7 +675,7 @@ pub fn sweep(ctx: &Ctx, plan: &SweepPlan, rep: &mut Report, checker: &Checker) -
         let block = if sp.name() == "E2.k2" { 16 } else { 1 << 12 };
         let st = run_space(ctx, sp.as_ref(), block, &chk);
         rep.add_space(&sp.name(), sp.describe(), &st);
-        if sp.name().starts_with("E1") || sp.name() == "E2.k0" {
+        if sp.name().starts_with("E1") || sp.name() == "E2.k0" || sp.name() == "E2.long.k0" {
             tree_inputs += st.inputs;
             tree_nontrivial += st.local.nontrivial;
         }
